@@ -326,6 +326,7 @@ func runC03(e *Engine, r *Report) {
 		}
 		r.floor("GD-known-sender", n, 1)
 	}
+	ruleSingleNodeQuorum(e, r)
 }
 
 // canGrantTrueEdges: in the boolean phi that forms the predicate's result,
